@@ -601,6 +601,44 @@ def r15_removal_guard_and_loop_carried_defaults(idx, r):
     r.ok("loops-scanned", "armi/nuclearDataIO/xsCollections.py", msg=f"{k} loops")
 
 
+def r16_reduce_order_merge_loop_and_sources(idx, r):
+    """(a) `__reduce__` returns (class, constructor arguments): each `self.<name>` in the argument tuple stands at the position of the
+    constructor parameter `<name>` - the copy a worker process receives is built from them positionally.  (b) while merging the libraries of a
+    directory, a file that is already part of the library is SKIPPED; the loop goes on with the remaining files (no `break`).  (c)
+    FileMetadata.update adds the other side's source files to its own list; replacing the list forgets where the data already held came from."""
+    n = 0
+    for f in idx.all_funcs():
+        if f.name != "__reduce__" or f.cls is None or ".tests" in f.module.name:
+            continue
+        init = f.cls.resolve("__init__")
+        if init is None:
+            continue
+        ps = init.params()[1:]
+        for x in walk_local(f.node):
+            if isinstance(x, ast.Return) and isinstance(x.value, ast.Tuple) and len(x.value.elts) >= 2 and isinstance(x.value.elts[1], ast.Tuple) \
+                    and norm(x.value.elts[0]) in ("self.__class__", "type(self)", f.cls.name):
+                for i, a in enumerate(x.value.elts[1].elts):
+                    if isinstance(a, ast.Attribute) and norm(a.value) == "self" and a.attr.lstrip("_") in ps:
+                        n += 1
+                        r.require(ps.index(a.attr.lstrip("_")) == i, f"{f.cls.name}.__reduce__:{a.attr}-at-its-constructor-position", f, node=a,
+                                  msg=f"`self.{a.attr}` stands at position {i} of the constructor arguments but `{a.attr.lstrip('_')}` is parameter {ps.index(a.attr.lstrip('_'))} of {f.cls.name}.__init__: the unpickled copy (every MPI worker) is built with the values exchanged")
+    if n < 2:
+        raise AnchorMissing("__reduce__ methods handing attributes to their constructor")
+    g = idx.func("armi.nuclearDataIO.xsLibraries.mergeXSLibrariesInWorkingDirectory")
+    loops = [x for x in walk_local(g.node) if isinstance(x, ast.For)]
+    brk = [y for lp in loops for y in walk_local(lp) if isinstance(y, ast.Break)]
+    r.require(bool(loops) and not brk, "mergeXSLibrariesInWorkingDirectory:every-file-visited", g, node=brk[0] if brk else None,
+              msg="the loop over the library files can `break`: once one file is skipped (already merged, ...) all files sorted after it are silently left out of the merged library")
+    h = idx.method("armi.nuclearDataIO.nuclearFileMetadata.FileMetadata", "update")
+    sts = [s_ for s_ in iter_stores(h.node) if s_.chain == "self.fileNames"] + [c for c in iter_calls(h.node) if norm(c.func) in ("self.fileNames.extend", "self.fileNames.append")]
+    if not sts:
+        raise AnchorMissing("FileMetadata.update: fileNames")
+    for s_ in sts:
+        grows = isinstance(s_, ast.Call) or s_.kind == "aug" or (s_.value is not None and "self.fileNames" in norm(s_.value))
+        r.require(grows, "FileMetadata.update:source-files-accumulate", h, node=getattr(s_, "stmt", s_),
+                  msg="the list of source files is replaced by the other side's: the files the data already held came from are forgotten (and a later directory merge reads them again)")
+
+
 def run(idx, chk):
     chk.explanation = (
         "C10: metadata/collection merges never write into their inputs and raise on conflicts; direct stores into the target library happen only "
@@ -637,3 +675,5 @@ def run(idx, chk):
                  necessary="macroscopic constants are the density-weighted sums over the libraries the caller named, for the kind of data the caller named")
     chk.run_rule("R10.15", "removal always subtracts n2n and adds out-scatter; a library stores a nuclide after the label was accepted; per-element defaults are not kept in a parameter", lambda r: r15_removal_guard_and_loop_carried_defaults(idx, r), floor=4,
                  necessary="macroscopic constants are the density-weighted sums over the block's own nuclides; a refused assignment leaves the library unchanged")
+    chk.run_rule("R10.16", "__reduce__ arguments stand at their constructor position; a merge visits every file; source files accumulate", lambda r: r16_reduce_order_merge_loop_and_sources(idx, r), floor=5,
+                 necessary="a merged library holds the union of its sources, on every process")
